@@ -835,11 +835,20 @@ class Program:
         """Targets of an indirect call: every address-taken local function
         (type-insensitive over-approximation refined by arity)."""
         n = len(call.args)
+        pty = (call.callee.get("ty") or "")
+        import re as _re
+        norm = lambda t: _re.sub(r"for<[^>]*> ", "", _re.sub(r"'[a-z_0-9]+ ", "", t)).strip()
         outs = []
-        for p in self.addr_taken():
+        for p, uses in self.addr_taken().items():
             f = self.fns.get(p)
-            if f is not None and f.arg_count == n:
-                outs.append(p)
+            if f is None or f.arg_count != n:
+                continue
+            # the pointer's type, when known, must be the item's signature
+            if pty.startswith(("fn(", "for<")) and uses:
+                sigs = {norm(t.split(" {")[0]) for _, t in uses}
+                if norm(pty) not in sigs:
+                    continue
+            outs.append(p)
         return outs
 
     def call_graph(self):
